@@ -156,6 +156,8 @@ def partial_trace(
 
     if dim is None:
         dim = np.array([np.round(np.sqrt(len(input_mat)))])
+        if int(dim[0]) ** 2 != len(input_mat):
+            raise ValueError("Invalid: If `dim` is not given, `len(input_mat)` must be a perfect square.")
     if isinstance(dim, int):
         dim = np.array([dim])
     if isinstance(dim, list):
